@@ -121,8 +121,23 @@ func main() {
 		cf, _ := os.Create(filepath.Join(dir, "cases.txt"))
 		inf, _ := os.Create(filepath.Join(dir, "impl.txt"))
 		cw, iw := bufio.NewWriter(cf), bufio.NewWriter(inf)
+		// wall-clock bound of one generation pass: an implementation that got slow or keeps spinning in
+		// abandoned (hung) goroutines must not stall the check; the cases not reached are answered
+		// "deadline-skipped" (counted as skipped, never as agreement)
+		budget := 300
+		if tier == "thorough" {
+			budget = 2400
+		}
+		if s, err := strconv.Atoi(os.Getenv("VERIF_GEN_DEADLINE_S")); err == nil && s > 0 {
+			budget = s
+		}
+		deadline := time.Now().Add(time.Duration(budget) * time.Second)
 		for _, c := range cases {
 			fmt.Fprintf(cw, "%s %s\n", id, c)
+			if time.Now().After(deadline) {
+				fmt.Fprintln(iw, "deadline-skipped")
+				continue
+			}
 			fmt.Fprintln(iw, runSafe(p, strings.Fields(c)))
 		}
 		cw.Flush()
